@@ -1012,6 +1012,13 @@ pub fn host(rep: &common::Report, prop: &str, thorough: bool) {
             visit(&Situation { cfg: cfg.clone(), plans: vec![p.clone()], schedule: solo_schedule(&p), out, alone: vec![again] });
         }
     }
+    if matches!(prop, "C01" | "C03" | "C06" | "C08" | "C10") {
+        let (logins, viols) = many_logins(if thorough { 3_000 } else { 400 });
+        for (k, t, replay) in viols {
+            rep.violation(common::Violation { key: k, text: t, replay, weight: 6_300_000 });
+        }
+        rep.set("world_logins_one_after_the_other_on_one_listener", json!(logins));
+    }
     if prop == "C03" {
         let (logins, viols) = discovery_over_time();
         for (k, t, replay) in viols {
@@ -1162,4 +1169,52 @@ pub fn discovery_over_time() -> (u64, Vec<(String, String, Value)>) {
         }
     }
     (n, out)
+}
+
+/// Accumulation in front of the real Listener: `n` players log in one after the other on one listener (PROXY
+/// protocol, limiter, secret; every fifth comes from an address seen before, every seventh only asks for the
+/// status first). Every one of them is served in full, as himself, and sent where the strategy chose.
+pub fn many_logins(n: usize) -> (u64, Vec<(String, String, Value)>) {
+    let mut out = vec![];
+    run_local(async {
+        let adapters = Arc::new(WorldAdapters::new(vec![]));
+        adapters.gate.add_permits(n * 2 + 10);
+        let cfg = ListenerCfg { proxy: Some((true, true)), limiter: Some((60, 1_000_000)), timeout: Duration::from_secs(20), auth_secret: Some(WORLD_SECRET.to_vec()), ..Default::default() };
+        let running = start_listener_with(&cfg, adapters).await;
+        for i in 0..n {
+            let name = format!("Seq{i}");
+            let src: SocketAddr = format!("198.18.{}.{}:{}", (i % 5 * 50 + i / 250) % 250, i % 250 + 1, 30_000 + i).parse().unwrap();
+            let replay = json!({"world": {"many_logins": n, "index": i}});
+            if i % 7 == 3 {
+                if let Ok(mut c) = McClient::connect(running.addr, Some("127.0.0.6".parse().unwrap())).await {
+                    let _ = c.send_raw(&proxy_v2(src, running.addr)).await;
+                    if let Err(e) = c.status_exchange(Duration::from_millis(1500)).await {
+                        out.push(("world:later-player-not-served-correctly".to_string(), format!("connection #{i} of {n} on one listener, a status exchange, failed: {e:?}"), replay.clone()));
+                    }
+                }
+            }
+            let Ok(mut c) = McClient::connect(running.addr, Some("127.0.0.6".parse().unwrap())).await else {
+                out.push(("world:later-player-not-served-correctly".to_string(), format!("connection #{i} of {n} on one listener could not be opened"), replay));
+                break;
+            };
+            let _ = c.send_raw(&proxy_v1(src, running.addr)).await;
+            let p = LoginParams { name: name.clone(), uuid: 0x5e0000 + i as u128, wait: Duration::from_millis(1500), ..Default::default() };
+            let mut o = LoginOutcome { packets: vec![], stage: Stage::Connected, error: None };
+            c.login(&p, Stage::Connected, Stage::Transferred, &mut o).await;
+            let got: Vec<&str> = o.packets.iter().map(|p| p.kind()).filter(|k| *k != "KeepAlive").collect();
+            let who = o.packets.iter().find_map(|p| if let Pkt::LoginSuccess { name, .. } = p { Some(name.clone()) } else { None });
+            let t = world_choice(&vouched(&name), &world_targets()).expect("target");
+            let went = o.packets.iter().find_map(|p| if let Pkt::Transfer { host, port } = p { Some((host.parse::<IpAddr>().ok(), *port)) } else { None });
+            let cookie_ok = o.packets.iter().any(|p| matches!(p, Pkt::StoreCookie { key, payload } if key == "passage:authentication" && { let c = open_auth_cookie(payload, WORLD_SECRET); c["tag_ok"] == json!(true) && c["body"]["user_name"] == json!(vouched(&name)) && c["body"]["client_addr"] == json!(src.to_string()) }));
+            if got != ["LoginCookieRequest", "EncryptionRequest", "LoginSuccess", "StoreCookie", "StoreCookie", "Transfer"] || who.as_deref() != Some(vouched(&name).as_str()) || went != Some((Some(t.address.ip()), t.address.port() as i32)) || !cookie_ok {
+                out.push(("world:later-player-not-served-correctly".to_string(), format!("connection #{i} of {n} on one listener (player {name} announced as {src}): answered with {got:?} as {who:?}, sent to {went:?}, cookie for him and his address: {cookie_ok} (stage {:?}, error {:?})", o.stage, o.error), replay));
+                if out.len() > 3 {
+                    break;
+                }
+            }
+        }
+        running.stop.cancel();
+        let _ = tokio::time::timeout(Duration::from_secs(3), running.done).await;
+    });
+    (n as u64, out)
 }
